@@ -210,10 +210,8 @@ theorem C18_reflection_points_on_boundaries (I : UIce) (p q : P3) (m : Nat) (up 
   refine ⟨?_, by simp, by rw [← List.cons_append, List.getLast?_concat]⟩
   simp [uMid_z]
 
-/-- the emitted direction is that of the straight line to the mirrored receiver (stated for the emitted direction;
-the received direction, equal to it with the vertical component reversed `m+1` times, is covered by the
-correspondence run only) -/
-theorem C18_uniform_directions_partial (I : UIce) (p q : P3) (m : Nat) (up : Bool)
+/-- helper: the emitted direction is that of the straight line to the mirrored receiver -/
+private theorem emitted_main (I : UIce) (p q : P3) (m : Nat) (up : Bool)
     (hS : 0 < listSum (uDzs I p.z q.z (m + 1) up)) (hf : 0 < firstLeg I p.z up) :
     uEmitted p q (m + 1) (uPointsDir I p q (m + 1) up) =
       PyrexR.Uni.normalize ⟨q.x - p.x, q.y - p.y, mirrorZ I.lo I.hi up (m + 1) q.z - p.z⟩ := by
@@ -249,6 +247,29 @@ theorem C18_uniform_directions_partial (I : UIce) (p q : P3) (m : Nat) (up : Boo
   rw [normalize_scale (firstLeg I p.z up) hf ⟨k * Real.cos (phi p q), k * Real.sin (phi p q), σ⟩,
     normalize_scale S hS ⟨k * Real.cos (phi p q), k * Real.sin (phi p q), σ⟩]
 
+/-- directions of a path with `m+1` reflections: the emitted direction is that of the first leg = the straight line
+from the source to the receiver mirrored `m+1` times; the received direction is that of the last leg = the same line
+with its vertical component reversed once per reflection (`(-1)^(m+1)`), i.e. the line from the mirrored source to the
+receiver; hence received = emitted with the vertical component multiplied by `(-1)^(m+1)` -/
+theorem C18_uniform_directions (I : UIce) (p q : P3) (m : Nat) (up : Bool)
+    (hS : 0 < listSum (uDzs I p.z q.z (m + 1) up)) (hf : 0 < firstLeg I p.z up)
+    (hl : 0 < lastLeg I q.z (m + 1) up) :
+    uEmitted p q (m + 1) (uPointsDir I p q (m + 1) up) =
+      PyrexR.Uni.normalize ⟨q.x - p.x, q.y - p.y, mirrorZ I.lo I.hi up (m + 1) q.z - p.z⟩ ∧
+    uReceived p q (m + 1) (uPointsDir I p q (m + 1) up) =
+      PyrexR.Uni.normalize ⟨q.x - p.x, q.y - p.y, (-1) ^ (m + 1) * (mirrorZ I.lo I.hi up (m + 1) q.z - p.z)⟩ ∧
+    uReceived p q (m + 1) (uPointsDir I p q (m + 1) up) =
+      ⟨(uEmitted p q (m + 1) (uPointsDir I p q (m + 1) up)).x,
+       (uEmitted p q (m + 1) (uPointsDir I p q (m + 1) up)).y,
+       (-1) ^ (m + 1) * (uEmitted p q (m + 1) (uPointsDir I p q (m + 1) up)).z⟩ := by
+  have he := emitted_main I p q m up hS hf
+  have hr := received_main I p q m up hS hl
+  refine ⟨he, hr, ?_⟩
+  rw [hr, he]
+  have ht : ((-1 : ℝ) ^ (m + 1)) * ((-1 : ℝ) ^ (m + 1)) = 1 := by
+    rw [← pow_add, ← two_mul, pow_mul]; norm_num
+  exact normalize_flipz _ ht ⟨q.x - p.x, q.y - p.y, mirrorZ I.lo I.hi up (m + 1) q.z - p.z⟩
+
 /-! ## the enumeration of layer index paths -/
 
 open PyrexD.LayerPaths in
@@ -274,8 +295,8 @@ theorem C18_build_path_complete (M : Nat) (pre : List Nat) (l : Nat) (down : Boo
 /-- a concrete two-reflection geometry satisfies the hypotheses of the image theorems -/
 example : let I : UIce := ⟨1.5, -100, 0, some 1, some 1.2⟩
     I.lo ≤ I.hi ∧ I.lo ≤ (-30 : ℝ) ∧ (-30 : ℝ) ≤ I.hi ∧ I.lo ≤ (-60 : ℝ) ∧ (-60 : ℝ) ≤ I.hi ∧
-    0 < listSum (uDzs I (-30) (-60) 2 true) ∧ 0 < firstLeg I (-30) true := by
-  simp only [uDzs, listSum, firstLeg]
+    0 < listSum (uDzs I (-30) (-60) 2 true) ∧ 0 < firstLeg I (-30) true ∧ 0 < lastLeg I (-60) 2 true := by
+  simp only [uDzs, listSum, firstLeg, lastLeg]
   norm_num
 
 /-- the enumeration is non-empty and `isBounce` accepts a genuine walk with one reflection -/
